@@ -223,6 +223,25 @@ func RunC10(r *Run) {
 		}
 		in := w.prepareInputs(n)
 		ld := w.pickLoader(in)
+		if ld == ldEntries && r.Choose("supply-arbitrary", 2) == 0 {
+			// the caller may start from any entries it holds, not only the heads: the stored log it
+			// then sees is what those entries reach
+			all := sortedKeys(n.Set)
+			k := 1 + r.Choose("nsupplied", 3)
+			chosen := map[string]bool{}
+			var es []iface.IPFSLogEntry
+			for i := 0; i < k; i++ {
+				h := all[r.Choose("supplied", len(all))]
+				if !chosen[h] {
+					chosen[h] = true
+					e, _ := n.Log.Get(w.Cids[h])
+					es = append(es, e)
+				}
+			}
+			in.heads = es
+			in.set = w.reachable(sortedKeys(chosen), map[string]bool{}, map[string]bool{})
+			r.Probe("supplied-non-head-entries")
+		}
 		size := len(in.set)
 		limit := r.Choose("limit", size+3)
 		var supplied []string
